@@ -68,6 +68,11 @@ def gen_headers(rng, spoof=False):
     for h in pool:
         if rng.chance(1, 3):
             hs.append(h)
+    if spoof and rng.chance(1, 4):
+        # hop-by-hop nomination (RFC 9110 7.6.1) of the proxy's own headers, in any letter case, must not remove them
+        opts = [b"x-ms-azure-host-claims", b"X-Ms-Azure-Host-Date", b"x-ms-azure-host-authorization", b"close", b"keep-alive", b"x-custom"]
+        pick = [o for o in opts if rng.chance(1, 2)] or [opts[0]]
+        hs = [h for h in hs if h[0].lower() != b"connection"] + [(b"Connection", b", ".join(pick))]
     if spoof:
         names = [b"x-ms-azure-host-claims", b"x-ms-azure-host-date", b"x-ms-azure-host-authorization"]
         for n in names:
